@@ -99,16 +99,24 @@ static int alive(const void *p) { return p && !__asan_address_is_poisoned(p); }
  * over is read here (an instrumented load: a chunk that reaches beyond the memory it lies in is reported where it happens) */
 static unsigned char *outb; static size_t outn, outcap;
 static size_t outcut[4096]; static int noutcut;
+/* memory that has been allocated and never written is recognisable: AddressSanitizer fills every fresh allocation (malloc,
+ * and the part realloc adds) with FRESH_BYTE, a byte that occurs in no UTF-8 text and in no control sequence the library
+ * builds.  `out_fresh` counts the bytes of that value handed to the output function during the current operation: bytes the
+ * library read as meaningful without ever having written them */
+#define FRESH_BYTE 0xFE
+const char *__asan_default_options(void) { return "malloc_fill_byte=254:max_malloc_fill_size=1048576"; }
+static long out_fresh;
 static void outf(TickitTerm *t, const char *b, size_t n, void *u)
 {
   (void)u;
   if(!b || t != tt) return;                    /* (NULL, 0) on destroy; further terminals are not recorded */
   if(outn + n + 1 > outcap) { outcap = (outn + n + 1) * 2; outb = realloc(outb, outcap); }
   memcpy(outb + outn, b, n);
+  for(size_t k = 0; k < n; k++) if((unsigned char)b[k] == FRESH_BYTE) out_fresh++;
   outn += n;
   if(noutcut < 4096) outcut[noutcut++] = outn;
 }
-static void out_reset(void) { outn = 0; noutcut = 0; }
+static void out_reset(void) { outn = 0; noutcut = 0; out_fresh = 0; }
 static void obs_out(void)
 {
   obs(" out=");
@@ -339,6 +347,47 @@ struct wbeh { int used; int timer; int pending; void *watch; int nacts; struct a
 static struct wbeh WBEH[MAXB]; static int nWBEH;
 static int on_watch(Tickit *t, TickitEventFlags flags, void *info, void *user);
 
+/* I/O watches of the toplevel instance (tickit_watch_io on the read end of a pipe of its own, readable for good or never):
+ * behaviour tables whose entries register further I/O watches (i<ready>), cancel one (k<n>) or the watch itself (x) */
+struct iobeh { int used; int pending; void *watch; int fd[2]; int nacts; struct act acts[MAXA]; };
+static struct iobeh IOBEH[MAXB]; static int nIOBEH;
+static int on_io(Tickit *t, TickitEventFlags flags, void *info, void *user);
+static int io_register(int ready, int nacts, const struct act *acts)
+{
+  if(!heldi() || nIOBEH >= MAXB) return 0;
+  struct iobeh *b = &IOBEH[nIOBEH];
+  if(pipe(b->fd) != 0) return 0;
+  nIOBEH++;
+  b->used = 1; b->pending = 1; b->nacts = nacts;
+  if(nacts) memcpy(b->acts, acts, nacts * sizeof *acts);
+  if(ready && write(b->fd[1], "x", 1) != 1) b->pending = 1;
+  b->watch = tickit_watch_io(TK, b->fd[0], TICKIT_IO_IN, 0, on_io, b);
+  return 1;
+}
+static int io_cancel(int k)
+{
+  if(!heldi() || k < 0 || k >= nIOBEH || !IOBEH[k].pending) return 0;
+  IOBEH[k].pending = 0;
+  tickit_watch_cancel(TK, IOBEH[k].watch);
+  return 1;
+}
+static int on_io(Tickit *t, TickitEventFlags flags, void *info, void *user)
+{
+  (void)t; (void)info;
+  if(!(flags & TICKIT_EV_FIRE)) return 0;
+  struct iobeh *b = user;
+  obs("I%d ", (int)(b - IOBEH));
+  int n = b->nacts;
+  struct act acts[MAXA];
+  memcpy(acts, b->acts, sizeof acts);
+  for(int i = 0; i < n; i++) {
+    if(acts[i].kind == 'i') io_register(acts[i].arg, 0, NULL);
+    else if(acts[i].kind == 'k') io_cancel(acts[i].arg);
+    else if(acts[i].kind == 'x') io_cancel((int)(b - IOBEH));
+  }
+  return 0;
+}
+
 /* an instant of the harness's clock (ms since its start) as the library's clock shows it */
 static struct timeval clock_at(long ms)
 {
@@ -426,6 +475,7 @@ static void engine_begin(void)
   memset(PBEH, 0, sizeof PBEH); nPBEH = 0;
   memset(TBEH, 0, sizeof TBEH); nTBEH = 0;
   memset(WBEH, 0, sizeof WBEH); nWBEH = 0;
+  memset(IOBEH, 0, sizeof IOBEH); nIOBEH = 0;
   in_fd[0] = in_fd[1] = -1; fake_ms = 0;
   TK = NULL; tk_refs = 0;
   memset(X, 0, sizeof X); memset(Xref, 0, sizeof Xref); nX = 0;
@@ -461,6 +511,7 @@ static int __attribute__((noinline)) leak_check(void)
   memset(PBEH, 0, sizeof PBEH);
   memset(TBEH, 0, sizeof TBEH);
   memset(WBEH, 0, sizeof WBEH);
+  memset(IOBEH, 0, sizeof IOBEH);
   TK = NULL;
   memset(X, 0, sizeof X);
   return __lsan_do_recoverable_leak_check() ? 1 : 0;
@@ -843,6 +894,16 @@ static void engine_op(int argc, char **argv)
     tickit_watch_cancel(TK, WBEH[k].watch);
     obs("ok"); dump(); return;
   }
+  if(strcmp(op, "iio") == 0 && argc >= 2) {
+    struct act acts[MAXA]; int n = 0;
+    for(int k = 2; k < argc && n < MAXA; k++) { acts[n].kind = argv[k][0]; acts[n].arg = atoi(argv[k] + 1); n++; }
+    if(!io_register(A(1), n, acts)) { obs("skip"); dump(); return; }
+    obs("ok"); dump(); return;
+  }
+  if(strcmp(op, "iiocancel") == 0 && argc == 2) {
+    if(!io_cancel(A(1))) { obs("skip"); dump(); return; }
+    obs("ok"); dump(); return;
+  }
   if(strcmp(op, "itick") == 0) {
     char bytes[512];
     size_t n = tokens_to_bytes(argc, argv, 1, bytes, sizeof bytes);
@@ -927,7 +988,7 @@ static void engine_op(int argc, char **argv)
     }
     else if(strcmp(op, "bflush") == 0) {
       if(!heldt()) { obs("skip"); dump(); return; }
-      tickit_renderbuffer_flush_to_term(rb, tt); obs("ok");
+      tickit_renderbuffer_flush_to_term(rb, tt); obs("ok fresh=%ld", out_fresh);
     }
     else if(strcmp(op, "bblit") == 0 && argc == 3) {
       int s = A(2); if(!heldb(s)) { obs("skip"); dump(); return; }
